@@ -78,6 +78,11 @@ theorem C18_accounted_iff_accepted (n : Net) (k : Nat) (fromA : Bool) (s : Nat) 
       simp only [hl, hS, hup, hadm, Bool.not_true, Bool.false_eq_true, if_false, if_true]
       exact ⟨_, List.mem_append_right _ (List.mem_singleton.mpr rfl), rfl, rfl, rfl, rfl⟩
 
+/-- A wireless access point answers exactly like a router interface. -/
+theorem C18_wap_answers_like_a_router_interface (own : List Ip) (ifc : Forward.Iface) (f : Forward.Frame) :
+    farAnswerWap ifc f = farAnswer (farNode .router own) ifc f := by
+  simp [farAnswerWap, farAnswer, farNode]
+
 /-- a host NIC refuses a unicast frame for another MAC (a flooded frame): the link's state is untouched -/
 example :
     let nd : Forward.Node := { kind := .host, ifaces := [{ mac := 5, ip := 0xC0A80002#32, plen := 24, enabled := true }] }
